@@ -222,6 +222,24 @@ def rule_nodeinit(ctx, rep):
     pat.require(n >= 3, "in-tree enqueue sites not found (%d)" % n)
 
 
+def rule_iter(ctx, rep):
+    """Iteration: decision tables of __cds_wfcq_first/next_{blocking,nonblocking} over the classes of (first load of
+    node->next, tail->p, re-load of node->next).  A non-NULL next is returned; NULL with tail == node is the end (NULL);
+    NULL with tail != node is an enqueue in flight: wait (blocking) or WOULDBLOCK, then return the re-loaded word."""
+    from .. import dtable
+    m = ctx.mod("cds", "flat")
+    WB = -1
+    nxt = lambda blocking: {(0, "SELF", 0): {0}, (0, "SELF", "X"): {0}, (0, "X", 0): (set() if blocking else {WB}), (0, "X", "X"): {"V2"},
+                            ("X", "SELF", 0): {"V0"}, ("X", "SELF", "X"): {"V0"}, ("X", "X", 0): {"V0"}, ("X", "X", "X"): {"V0"}}
+    fst = lambda blocking: {(0, "SELF", 0): {0}, (0, "SELF", "X"): {0}, (0, "X", 0): (set() if blocking else {WB}), (0, "X", "X"): {"V2"},
+                            ("X", "SELF", 0): (set() if blocking else {WB}), ("X", "SELF", "X"): {"V2"}, ("X", "X", 0): (set() if blocking else {WB}), ("X", "X", "X"): {"V2"}}
+    for name, exp in (("__cds_wfcq_next_nonblocking", nxt(False)), ("__cds_wfcq_next_blocking", nxt(True)),
+                      ("__cds_wfcq_first_nonblocking", fst(False)), ("__cds_wfcq_first_blocking", fst(True))):
+        f = m.fn(name)
+        pat.require(f is not None, name + " vanished")
+        dtable.compare(rep, "C10.iter", name, f, exp, "classes of (node->next, tail->p, re-loaded node->next)")
+
+
 RULES = [
     ("C10.nodeinit", rule_nodeinit),
     ("C10.append", rule_append),
@@ -230,5 +248,6 @@ RULES = [
     ("C10.splice", rule_splice),
     ("C10.locked", rule_locked),
     ("C10.legacy", rule_legacy),
+    ("C10.iter", rule_iter),
 ]
 FLOORS = {}
